@@ -101,6 +101,22 @@ def run(res, tier, seed):
                              lambda tr: 'recorded execution of the real allocator is rejected by HeapAbs (%s): %s' % (sg(tr), json.dumps([e for e in tr if not e['e'].startswith('#')][-12:])[:1500]),
                              batch=60, sig_fn=sg)
     res.extra.update({'executions': nexec, 'real_steps_executed': steps, 'api_calls_validated': sum(len(t) for t in execs)})
+    # the top of the size range: requests that cannot be represented (sizes / products / alignments up to and beyond 2^64, incl. the family of calloc(a, b)
+    # whose product wraps to a small value) - a block returned for one of them is smaller than the request.  Same scenario and abstract spec as C18 (PoolAbs: a
+    # refused request is reported, nothing is returned, live blocks stay intact).
+    t = os.path.join(vlib.BUILD, 'traces', 'c17-top-%d.ndjson' % os.getpid())
+    pp = vlib.sh([exe, 'oom', t, str(6 if not thorough else 60), str(seed * 5003 + 17)], timeout=2500)
+    if pp.returncode != 0:
+        raise vlib.HarnessFailure('h_malloc oom failed: %s' % (pp.stdout + pp.stderr)[-1500:])
+    tex = vlib.collect_traces([t])
+    for tr in tex:
+        if any(e['e'] == 'Stuck' and e.get('rc') == 'watchdog' for e in tr):
+            raise vlib.HarnessFailure('h_malloc child hung (watchdog)')
+    sp = sig('TracePool')
+    vlib.validate_and_report(res, SD, 'TracePool', 'TracePool.cfg', tex, 'c17-top',
+                             lambda tr: 'a request that cannot be represented was not refused cleanly (%s): %s' % (sp(tr), json.dumps([e for e in tr if not e['e'].startswith('#')][-14:])[:1500]),
+                             batch=60, sig_fn=sp)
+    res.extra['unrepresentable_requests_validated'] = sum(1 for tr in tex for e in tr if e['e'] == 'Fail')
     res.exhaustive = False
     res.assumptions += ['API sequences and schedules are seeded random (sampled); sequentially consistent; 1-4 logical threads, <= 20 live blocks',
                         'overlap with allocator metadata is observed only through the fill patterns of live blocks (whole block up to 8 KiB, first and last 4 KiB beyond)',
